@@ -9,7 +9,8 @@ CID = "C04"
 def run(ctx):
     ctx.assumptions += ["model = coq/Model/Broker.v version V1 (hand written); critical sections atomic; timers may fire at any step",
                         "tie = scenario correspondence (forced-order scripts replayed in the extracted model) + property predicates on herds",
-                        "container/heap modelled relationally (pop returns some minimum); Go scheduler/timers not verified"]
+                        "matching pool relational in Model/Broker.v; the array SnowflakeHeap machine (Model/BrokerImpl.v) is proved to refine it and replays every forced-order scenario (`broker irun`); Go scheduler/timers not verified",
+                        "bridge list: re-installation at any step is a label of the model (L_Install); the default-bridge rule is applied by the model (fp_of)"]
     ctx.trusted.append("harness/overlay/broker/zz_verif_broker_test.go scenario driver; lib/checks/brokerlib.py label derivation")
     scens = brokerlib.scenarios(ctx.rng, ctx.tier)
     brokerlib.run_scenarios(ctx, scens, {CID}, "broker-scenarios")
